@@ -73,7 +73,8 @@ fn collect(e: &Value, f: &mut dyn FnMut(u64)) {
 fn replay(cases: &str, outp: &str) {
     let mut out = Out::create(outp);
     let (mut n, mut bad) = (0u64, 0u64);
-    for (ci, c) in read_ndjson(cases).iter().enumerate() {
+    for (ci, c) in vh::stream_ndjson(cases).enumerate() {
+        let c = &c;
         n += 1;
         eprintln!("@{ci}");
         let keep: Vec<bool> = c["keep"].as_array().unwrap().iter().map(|b| b.as_bool().unwrap()).collect();
